@@ -1,4 +1,41 @@
-import Rbp.Model.Script
+import Rbp.Proofs.OpReturn
+/-!
+# C16 — opreturn prints exactly the non-empty UTF-8 payloads, in chain order
+-/
 namespace Rbp.Props.C16
-theorem placeholder_unfolds (v : UInt8) (s : List UInt8) : S.eval v s = (if v = 0x00 then S.evalBtc false s else if v = 0x6f then S.evalBtc true s else S.evalCustom v s) := rfl
+open S SM CB
+
+/-- fork coins: OP_RETURN followed by exactly one data push — direct, PUSHDATA1, PUSHDATA2 or PUSHDATA4, any non-empty
+    payload the form can carry — is typed OpReturn with exactly the pushed payload, lossily decoded (invalid sequences
+    become U+FFFD) -/
+theorem single_push_fork (ver : UInt8) (f : T.Form) (p : Bytes) (hwf : (T.Tok.push f p).WF) (hne : p ≠ []) :
+    evalCustom ver (singlePush f p) = ⟨.opReturn (L.lossy p), none⟩ :=
+  fork_single_push ver f p hwf hne
+
+/-- Bitcoin / testnet3: the same script is typed OpReturn with exactly the pushed payload when it is valid UTF-8
+    (core Lean's `ByteArray.validateUTF8`), and with the empty payload — nothing is printed — otherwise -/
+theorem single_push_btc (testnet : Bool) (f : T.Form) (p : Bytes) (hwf : (T.Tok.push f p).WF) :
+    evalBtc testnet (singlePush f p) =
+      ⟨.opReturn (if (ByteArray.mk p.toArray).validateUTF8 then p else []), none⟩ :=
+  btc_single_push testnet f p hwf
+
+/-- the callback prints a line for an output iff its script is typed OpReturn with a non-empty payload; every other
+    output prints nothing -/
+theorem line_iff (ver : UInt8) (b : EBlock) (t : W.RTx) (o : W.ROut) :
+    (∃ l, (match (S.eval ver o.script).pattern with
+        | .opReturn p => if p.isEmpty then none else some l
+        | _ => (none : Option String)) = some l) ↔
+      ∃ p, (S.eval ver o.script).pattern = .opReturn p ∧ p ≠ [] := by
+  cases h : (S.eval ver o.script).pattern <;> simp
+
+/-- lines appear in chain order: the lines of a concatenation of block lists are the concatenation of their lines
+    (blocks in order, transactions in order, outputs in order) -/
+theorem lines_in_chain_order (ver : UInt8) (bs1 bs2 : List EBlock) :
+    opreturnLines ver (bs1 ++ bs2) = opreturnLines ver bs1 ++ opreturnLines ver bs2 := by
+  simp [opreturnLines]
+
+/-- non-vacuity: the 76..80 byte range needs PUSHDATA1 and is well-formed there, not as a direct push -/
+example : (T.Tok.push .pd1 (List.replicate 80 0x41)).WF ∧ ¬ (T.Tok.push .direct (List.replicate 80 0x41)).WF := by
+  simp [T.Tok.WF, T.Form.width]
+
 end Rbp.Props.C16
